@@ -129,7 +129,7 @@ def parse_operand(c):
     if c.eat('no_retag move '): return ('move', parse_place(c))
     if c.eat('const '):
         j = scan_balanced(c.s, c.i, [',', ')', ']', '}', ' as ', ';', ' -> '])
-        txt = c.s[c.i:j]; c.i = j
+        txt = c.s[c.i:j].strip(); c.i = j
         return ('const', txt)
     # bare function item / path operand (e.g. `new_int`, `builtins::fns::print as fn(..) (..)`)
     m = re.compile(r'[A-Za-z_][\w:]*').match(c.s, c.i)
@@ -429,10 +429,14 @@ def load(path):
     text = open(path).read()
     items, allocs = split_items(text)
     bodies = {}
+    DUPS.clear()
     for h, lines in items:
         b = parse_body(h, lines)
-        bodies.setdefault(b.name, b)
+        if b.name in bodies: DUPS.setdefault(b.name, [bodies[b.name]]).append(b)
+        else: bodies[b.name] = b
     return bodies, allocs
+
+DUPS = {}
 
 if __name__ == '__main__':
     bodies, allocs = load(sys.argv[1])
